@@ -1,4 +1,5 @@
 import CovfieModel.Model.IO
+import CovfieModel.Model.Narrow
 open Covfie.IO
 /-- prefix-notation token parsers for `Ty` and `Dat` -/
 partial def pTy : List String → Option (Ty × List String)
@@ -33,34 +34,86 @@ partial def pDat : List String → Option (Dat × List String)
   | _ => none
 def hex2 (b : Nat) : String :=
   let h := "0123456789abcdef".toList
-  String.mk [h.getD (b / 16) '?', h.getD (b % 16) '?']
+  String.ofList [h.getD (b / 16) '?', h.getD (b % 16) '?']
 def parseHex (s : String) : List Nat :=
+  if s = "-" then [] else
   let cs := s.toList
   let v (c : Char) : Nat := if c.isDigit then c.toNat - 48 else c.toNat - 87
   let rec go : List Char → List Nat
     | a :: b :: r => (v a * 16 + v b) :: go r
     | _ => []
   go cs
+def showNums (xs : List Nat) : String := " ".intercalate ((toString xs.length) :: xs.map toString)
+/-- canonical token form of parsed content (the harness prints a loaded field in exactly this shape) -/
+def showDat : Dat → String
+  | .array wd n cells => s!"A {wd} {n} {showNums cells}"
+  | .constant v => s!"C {showNums v}"
+  | .identity => "I"
+  | .sized c d => s!"S {showNums c} {showDat d}"
+  | .clamp lo hi d => s!"K {showNums lo} {showNums hi} {showDat d}"
+  | .backup lo hi df d => s!"B {showNums lo} {showNums hi} {showNums df} {showDat d}"
+  | .affine m d => s!"F {showNums m} {showDat d}"
+  | .thin d => s!"T {showDat d}"
+def errName : IOErr → String
+  | .truncated => "truncated" | .badMagic => "badMagic" | .badTag => "badTag" | .badWidth => "badWidth"
+def verdict (ty : Ty) (bs : List Nat) : Char := match load ty bs with | .ok _ => 'F' | .error _ => 'E'
+/-- replace the 4-byte little-endian word at `off` -/
+def patch (bs : List Nat) (off w : Nat) : List Nat := bs.take off ++ le 4 w ++ bs.drop (off + 4)
+def hexVal (s : String) : Nat := s.toList.foldl (fun a c => a * 16 + (if c.isDigit then c.toNat - 48 else c.toNat - 87)) 0
+def parseAlt (s : String) : Option (Nat × Nat) :=
+  match s.splitOn ":" with
+  | [a, b] => do pure (← a.toNat?, hexVal b)
+  | _ => none
+/-- `<Ty tokens> | rest…` -/
+def tyThen (r : List String) : Option (Ty × List String) :=
+  match pTy r with
+  | some (ty, "|" :: r2) => some (ty, r2)
+  | _ => none
 def step (line : String) : String :=
   let toks := (line.trimAscii.toString.splitOn " ").filter (· ≠ "")
   match toks with
   | "dump" :: r =>
-    match pTy r with
-    | some (ty, r1) => match r1 with
-      | "|" :: r2 => match pDat r2 with
+    match tyThen r with
+    | some (ty, r2) => match pDat r2 with
         | some (d, _) => String.join ((dump ty d).map hex2)
         | none => "bad-dat"
-      | _ => "bad-sep"
     | none => "bad-ty"
   | "load" :: r =>
-    match pTy r with
-    | some (ty, r1) => match r1 with
-      | ["|", hex] => match load ty (parseHex hex) with
+    match tyThen r with
+    | some (ty, [hex]) => match load ty (parseHex hex) with
         | .ok (_, rest) => s!"ok {rest.length}"
-        | .error _ => "error"
-      | ["|"] => match load ty [] with | .ok _ => "ok 0" | .error _ => "error"
-      | _ => "bad-sep"
-    | none => "bad-ty"
+        | .error e => s!"error {errName e}"
+    | some (ty, []) => match load ty [] with | .ok _ => "ok 0" | .error e => s!"error {errName e}"
+    | _ => "bad-ty"
+  | "reload" :: r =>
+    match tyThen r with
+    | some (ty, [hex]) => match load ty (parseHex hex) with
+        | .ok (d, rest) => s!"ok {rest.length} | {showDat d}"
+        | .error e => s!"error {errName e}"
+    | _ => "bad-ty"
+  | "crossload" :: w :: r =>      -- a file loaded into a field type whose stored scalars are `w` bytes wide
+    match tyThen r, w.toNat? with
+    | some (ty, [hex]), some wn => match load ty (parseHex hex) with
+        | .ok (d, rest) => s!"ok {rest.length} | {showDat (convDat wn d)}"
+        | .error e => s!"error {errName e}"
+    | _, _ => "bad-ty"
+  | "prefixes" :: r =>            -- every k in 0..len: is the stream that ends after k bytes rejected?
+    match tyThen r with
+    | some (ty, [hex]) =>
+        let bs := parseHex hex
+        String.ofList ((List.range (bs.length + 1)).map fun k => verdict ty (bs.take k))
+    | _ => "bad-ty"
+  | "alts" :: r =>                -- alts <Ty> | <hex> off:word …
+    match tyThen r with
+    | some (ty, hex :: alts) =>
+        let bs := parseHex hex
+        let out := alts.map fun a => match parseAlt a with
+          | some (off, w) => verdict ty (patch bs off w)
+          | none => '?'
+        if out.isEmpty then "-" else String.ofList out
+    | _ => "bad-ty"
+  | "narrow" :: r => " ".intercalate (r.map fun x => toString (Covfie.C07.narrowBits x.toNat!))
+  | "widen" :: r => " ".intercalate (r.map fun x => toString (Covfie.C07.widenBits x.toNat!))
   | _ => "bad-op"
 partial def loop (h : IO.FS.Stream) : IO Unit := do
   let line ← h.getLine
